@@ -91,6 +91,10 @@ func runC01(c map[string]interface{}) []Event {
 	if str(c["kind"]) == "f2" || str(c["kind"]) == "f2r" {
 		scale = 4.0
 	}
+	isF1 := scale == 2
+	if v, ok := c["sh"]; ok { // magnitude shift: operands times 2^sh (exact); results are read back through the same factor
+		scale = scale * math.Ldexp(1, -num(v))
+	}
 	e := Event{"ev": "op", "again": false, "rings": []interface{}{}, "integral": true, "pts": []interface{}{}, "inres": []interface{}{}}
 	e["out"] = safely(func() {
 		A := buildOperand(c["A"], str(c["ta"]), scale)
@@ -116,7 +120,7 @@ func runC01(c map[string]interface{}) []Event {
 			}
 		}
 		e["again"] = reflect.DeepEqual(first, c01Canon(rings2))
-		if scale == 2 {
+		if isF1 {
 			out := make([]interface{}, len(rings))
 			for i, ring := range rings {
 				rr := make([]interface{}, len(ring))
